@@ -21,4 +21,9 @@ ShippedInputs == UNION {Truncations(d) \cup Insertions(d, {"LINK", "CHARSET"}) \
 SimInputs == DocsOf("nexus") \cup {<<"#NEXUS">>}
 MCGenEdits(d) == SingleEdits(d, A, K, MaxSpan) \cup {Append(d, t) : t \in A \cup K}
 NoGenEdits(d) == {d}
+\* random token strings: block openers extended by GenSteps random tokens
+StringSimInputs == {<<>>, <<"#NEXUS">>, <<"#NEXUS", "BEGIN", "TAXA", ";">>, <<"#NEXUS", "BEGIN", "TREES", ";">>,
+                    <<"#NEXUS", "BEGIN", "DATA", ";", "DIMENSIONS", "NTAX", "=", "2", "NCHAR", "=", "2", ";">>,
+                    <<"#NEXUS", "BEGIN", "SETS", ";">>}
+StringGenEdits(d) == {Append(d, t) : t \in A \cup K}
 =============================================================================
